@@ -18,6 +18,11 @@ type SolverCfg struct {
 }
 
 var solvers = []SolverCfg{
+	// pure e-matching (no model-based instantiation, no auto-configuration): proves most frame/closure goals at once
+	// and answers unknown, never sat, on goals it cannot prove; a proof found under any option set is a proof
+	{"z3-new-ematch", func(f string, t int) []string {
+		return []string{"z3-new", fmt.Sprintf("-T:%d", t), "smt.auto_config=false", "smt.mbqi=false", f}
+	}},
 	{"z3-new", func(f string, t int) []string { return []string{"z3-new", fmt.Sprintf("-T:%d", t), f} }},
 	{"cvc5", func(f string, t int) []string {
 		return []string{"cvc5", "--incremental", fmt.Sprintf("--tlimit=%d", t*1000), f}
@@ -26,8 +31,40 @@ var solvers = []SolverCfg{
 }
 
 func runSolver(sc SolverCfg, file string, timeoutS int) (string, string, float64) {
+	return runSolverCtx(context.Background(), sc, file, timeoutS)
+}
+
+// raceSolvers runs the configurations concurrently and returns the first definite answer (the others are killed).
+func raceSolvers(cfgs []SolverCfg, file string, timeoutS int) (string, string, string, float64) {
+	ctx, cancel := context.WithCancel(context.Background())
+	defer cancel()
+	type ans struct {
+		r, out, name string
+	}
+	ch := make(chan ans, len(cfgs))
+	t0 := time.Now()
+	for _, sc := range cfgs {
+		go func(sc SolverCfg) {
+			r, out, _ := runSolverCtx(ctx, sc, file, timeoutS)
+			ch <- ans{r, out, sc.Name}
+		}(sc)
+	}
+	last := ans{"unknown", "", cfgs[0].Name}
+	for range cfgs {
+		a := <-ch
+		if a.r == "sat" || a.r == "unsat" {
+			return a.r, a.out, a.name, time.Since(t0).Seconds()
+		}
+		if a.r == "timeout" || last.out == "" {
+			last = a
+		}
+	}
+	return last.r, last.out, last.name, time.Since(t0).Seconds()
+}
+
+func runSolverCtx(parent context.Context, sc SolverCfg, file string, timeoutS int) (string, string, float64) {
 	args := sc.Args(file, timeoutS)
-	ctx, cancel := context.WithTimeout(context.Background(), time.Duration(timeoutS+5)*time.Second)
+	ctx, cancel := context.WithTimeout(parent, time.Duration(timeoutS+5)*time.Second)
 	defer cancel()
 	cmd := exec.CommandContext(ctx, args[0], args[1:]...)
 	var out bytes.Buffer
@@ -63,6 +100,7 @@ func discharge(obs []*Obligation, scratch string, tier string, seed int) {
 	order := solvers
 	var wg sync.WaitGroup
 	sem := make(chan struct{}, 16)
+	raceSem := make(chan struct{}, 4) // 4 races x 4 configurations: one process per core
 	for idx, ob := range obs {
 		wg.Add(1)
 		go func(idx int, ob *Obligation) {
@@ -78,20 +116,28 @@ func discharge(obs []*Obligation, scratch string, tier string, seed int) {
 				return
 			}
 			total := 0.0
-			for k, sc := range order {
-				script := file
-				if sc.Name == "cvc5" {
-					// cvc5 wants produce-models before set-logic; our header already has that order
-				}
-				r, out, el := runSolver(sc, script, timeout)
+			if ob.Expect != "unsat" {
+				// covers: only a model (sat) or a refutation (unsat) matters; unknown counts as reachable, so one
+				// model-finding configuration with a short limit is enough
+				r, out, el := runSolver(solvers[1], file, 5)
+				ob.Result, ob.Solver, ob.Output, ob.Seconds = r, solvers[1].Name, out, el
+				os.Remove(file)
+				return
+			}
+			// stage 1: the e-matching configuration with a short limit decides most obligations at once;
+			// stage 2: all configurations race with the full limit (the first definite answer wins)
+			r, out, el := runSolver(order[0], file, 2)
+			total += el
+			if r == "sat" || r == "unsat" {
+				ob.Result, ob.Solver, ob.Output = r, order[0].Name, out
+			} else {
+				<-sem // do not hold a stage-1 slot while racing
+				raceSem <- struct{}{}
+				r, out, name, el := raceSolvers(order, file, timeout)
+				<-raceSem
+				sem <- struct{}{}
 				total += el
-				if r == "sat" || r == "unsat" {
-					ob.Result, ob.Solver, ob.Output = r, sc.Name, out
-					break
-				}
-				if k == len(order)-1 || ob.Result == "" {
-					ob.Result, ob.Solver, ob.Output = r, sc.Name, out
-				}
+				ob.Result, ob.Solver, ob.Output = r, name, out
 			}
 			ob.Seconds = total
 			if tier == "thorough" && ob.Result == "unsat" && ob.Expect == "unsat" {
